@@ -17,7 +17,7 @@ fn arg(args: &[String], name: &str) -> Option<String> {
 
 fn real_main() -> i32 {
     let args: Vec<String> = std::env::args().collect();
-    if args.len() < 3 {
+    if args.len() < 2 || (args.len() < 3 && args[1] != "selftest") {
         eprintln!("usage: smtmon run|replay PROP ...");
         return 3;
     }
@@ -28,7 +28,7 @@ fn real_main() -> i32 {
             return 3;
         }
     }
-    let prop = args[2].clone();
+    let prop = args.get(2).cloned().unwrap_or_default();
     let seed: u64 = arg(&args, "--seed").and_then(|s| s.parse().ok()).unwrap_or(1);
     install_panic_hook();
     match args[1].as_str() {
@@ -58,6 +58,16 @@ fn real_main() -> i32 {
             }
             0
         }
+        "selftest" => match mon::selftest::run(seed, 400) {
+            Ok(m) => {
+                println!("{}", m);
+                0
+            }
+            Err(m) => {
+                println!("SELFTEST FAILED: {}", m);
+                3
+            }
+        },
         "replay" => {
             let kind = arg(&args, "--kind").unwrap_or_default();
             let mut text = String::new();
